@@ -287,6 +287,76 @@ pub fn block_string(index: u64, max_len: u32) -> String {
     if index < a { alphabet_string(index, BLOCK_ALPHABET_A, max_len) } else { alphabet_string(index - a, BLOCK_ALPHABET_B, max_len) }
 }
 
+/// "the same thing several times": homogeneous operator chains, conditional chains of 1..6 arms (with and without a
+/// default, under every truth pattern that selects a different arm, at top level and inside a group, a nested
+/// expression and a list), nesting of every bracket kind and of prefix / suffix operators to depth 6, statement
+/// sequences of 2..7 statements. Bounded-exhaustive over (construct, repetition count), not over all programs.
+pub fn repetition_programs() -> Vec<String> {
+    let mut out: Vec<String> = vec![];
+    for op in crate::model::valuepool::BINARY_OPS {
+        for k in 3..=7usize {
+            let operands: Vec<String> = (1..=k).map(|i| i.to_string()).collect();
+            out.push(if *op == " " { operands.join(" ") } else { operands.join(&format!(" {} ", op)) });
+        }
+    }
+    for n in 1..=6usize {
+        for kinds in 0..3 {
+            for default in [false, true] {
+                for pattern in 0..4 {
+                    let mut parts = vec![];
+                    for i in 0..n {
+                        let truth = match pattern {
+                            0 => false,
+                            1 => true,
+                            2 => i + 1 == n,
+                            _ => i == 0,
+                        };
+                        let op = match kinds {
+                            0 => "?>",
+                            1 => "!>",
+                            _ => if i % 2 == 0 { "?>" } else { "!>" },
+                        };
+                        // the arm is taken when the condition's truth matches the operator
+                        let cond = if (op == "?>") == truth { "$?" } else { "$!" };
+                        let cond = if op == "!>" { if truth { "$!" } else { "$?" } } else { cond };
+                        parts.push(format!("{} {} {}", cond, op, (i + 1) * 10));
+                    }
+                    if default {
+                        parts.push("99".to_string());
+                    }
+                    let chain = parts.join(" |> ");
+                    out.push(chain.clone());
+                    out.push(format!("( {} ) + 1", chain));
+                    out.push(format!("{{ {} }} ~~", chain));
+                    out.push(format!("7, ( {} ), 8", chain));
+                }
+            }
+        }
+    }
+    for d in 1..=6usize {
+        out.push(format!("{}5{}", "( ".repeat(d), " )".repeat(d)));
+        out.push(format!("{}5{}", "{ ".repeat(d), " } ~~".repeat(d)));
+        out.push(format!("{}5{}", "1 ( ".repeat(d), " )".repeat(d)));
+        out.push(format!("5{}", " [ 6".repeat(d)) + &" ]".repeat(d));
+        for pre in ["--", "++", "!!", "??", "!", "_."] {
+            out.push(format!("{}5", format!("{} ", pre).repeat(d)));
+        }
+        for suf in ["~~", "._", ".|"] {
+            out.push(format!("( 1 2 ){}", format!(" {}", suf).repeat(d)));
+        }
+        out.push(format!("{}5", "{ $ + 1 } <~ ".repeat(d)));
+        out.push(format!("5{}", " ~> { $ + 1 }".repeat(d)));
+    }
+    for k in 2..=7usize {
+        let st: Vec<String> = (1..=k).map(|i| format!("$ + {}", i)).collect();
+        out.push(st.join(" ; "));
+        out.push(st.join("\n\n"));
+        out.push(st.iter().enumerate().map(|(i, s)| if i == 0 { s.clone() } else if i % 2 == 0 { format!(" ; {}", s) } else { format!("\n\n{}", s) }).collect::<String>());
+        out.push(format!("{{ {} }} <~ 1", st.join(" ; ")));
+    }
+    out
+}
+
 pub fn simple_for_build() -> garnish_lang_simple_data::SimpleGarnishData {
     new_simple()
 }
